@@ -34,7 +34,7 @@ func init() {
 		},
 		Enumerate: enumerate,
 		Exec:      exec,
-		Required: []string{"fwd-plain-args", "fwd-plain-noargs", "fwd-special-args", "fwd-special-noargs", "fwd-ref", "compiled", "re-evaluated",
+		Required: []string{"fwd-plain-args", "fwd-plain-noargs", "fwd-special-args", "fwd-special-noargs", "fwd-ref", "fwd-var", "compiled", "re-evaluated",
 			"redefinition-seen-by-old-caller", "early-failure-then-value", "mutual-recursion", "self-recursion", "macro-use",
 			"macro-expands-to-later-function", "defvar-read", "global-state", "closure", "closure-state", "code-as-data", "function-designator", "two-callers"},
 		Bound:    bound,
@@ -102,8 +102,9 @@ func parseSpec(spec string) (p *program, perm []int, mode string, err error) {
 // fwdLabel names the order-shape of a case by its "strongest" forward edge:
 // a call site in a strict position (body form, function argument, progn) with
 // arguments > the same without arguments > a call site inside a conditional /
-// binding special form with / without arguments > a #'function designator.
-var fwdPriority = []string{"plain+args", "plain+noargs", "special+args", "special+noargs", "ref"}
+// binding special form with / without arguments > a #'function designator >
+// a global variable read by a function defined before the defvar.
+var fwdPriority = []string{"plain+args", "plain+noargs", "special+args", "special+noargs", "ref", "var"}
 
 func fwdLabel(edges []fwdEdge) string {
 	set := map[string]bool{}
@@ -134,8 +135,8 @@ func sigMode(cls string) string {
 }
 
 func edgeName(e fwdEdge) string {
-	if e.pos == "ref" {
-		return "ref"
+	if e.pos == "ref" || e.pos == "var" {
+		return e.pos
 	}
 	if 0 < e.nargs {
 		return e.pos + "+args"
